@@ -22,10 +22,10 @@ func genH265Nal(c *RNG, size int) []byte {
 	b := genNalBody(c, size)
 	typ := c.Intn(48)
 	b[0] = byte(typ)<<1 | byte(c.Intn(2)) // F = 0, top bit of layer id
-	b[1] = byte(c.Intn(32))<<3 | byte(1+c.Intn(7))
+	b[1] = byte(c.Intn(32))<<3 | byte(c.Intn(8)) // TID 0 included (reserved for NAL types the library does not interpret)
 	if c.Intn(3) == 0 { // small layer ids and TIDs, so that minima of different units cross
 		b[0] &^= 1
-		b[1] = byte(c.Intn(3))<<3 | byte(1+c.Intn(3))
+		b[1] = byte(c.Intn(3))<<3 | byte(c.Intn(4))
 	}
 	if b[2] == 0 && b[1] == 0 {
 		b[2] = 3
